@@ -1967,7 +1967,8 @@ dnsname_to_labels(u8 *const buf, size_t buf_len, off_t j,
 			const size_t label_len = end - start;
 			if (label_len > 63) return -1;
 			if ((size_t)(j+label_len+1) > buf_len) return -2;
-			if (table) dnslabel_table_add(table, start, j);
+			/* a compression pointer has 14 bits of offset */
+			if (table && j < 0x4000) dnslabel_table_add(table, start, j);
 			buf[j++] = (ev_uint8_t)label_len;
 
 			memcpy(buf + j, start, label_len);
@@ -1978,7 +1979,8 @@ dnsname_to_labels(u8 *const buf, size_t buf_len, off_t j,
 			const size_t label_len = name - start;
 			if (label_len > 63) return -1;
 			if ((size_t)(j+label_len+1) > buf_len) return -2;
-			if (table) dnslabel_table_add(table, start, j);
+			/* a compression pointer has 14 bits of offset */
+			if (table && j < 0x4000) dnslabel_table_add(table, start, j);
 			buf[j++] = (ev_uint8_t)label_len;
 
 			memcpy(buf + j, start, label_len);
